@@ -1,8 +1,101 @@
 import GceTcb.Base.Line
-/- Driver handler for stream `c04` (stub: replaced when the property's model lands). -/
-namespace GceTcb.Drive.C04
-open GceTcb
+import GceTcb.Base.Sha384
+import GceTcb.Model.SevCfg
+import GceTcb.Spec.SnpLaunch
+import GceTcb.Gen.SevLayout
+/-
+Driver handler for stream `c04` (also used by `c08sev` for the measurement entry points).
 
-def handle (_f : Fields) : String := "unimplemented"
+  c04 op=ld  vcpus=<int> product=<n> fw=<image>                     sev.LaunchDigest
+  c04 op=snp family=<0|1> image=<0|1> vmsas=<n> product=<n> fw=<image>   sev.UnsignedSnp
+  c04 op=vmsa ap=<0|1> addr=<n>                                       PutVmsa of the BSP / AP reset state
+
+`<image>` is a `;`-separated list of parts: `z<n>` n zero bytes, `b<hh>x<n>` one byte repeated,
+`p<seed>x<n>` the pattern byte_i = (seed + 7 i + i/256) mod 256, `h<hex>` literal bytes.
+
+Output of `ld`: `ok <model digest> <spec digest>` — the first from the MODEL of the Go code
+(Model/SevLd.lean over the regenerated layout/template/widths), the second from the independent
+SPEC (Spec/SnpLaunch.lean) applied to the sections and reset address the model parsed — or
+`reject=<class>` / `panic=<site>`.
+-/
+namespace GceTcb.Drive.C04
+open GceTcb GceTcb.Codecs GceTcb.SevLd
+
+def H : Bytes → Bytes := Sha384.sha384List
+
+def cfg : Cfg := genCfg
+
+def hexNib (c : Char) : Nat := (hexVal? c).getD 0
+
+/-- tail-recursive hex decoder into an array -/
+def hexInto (acc : Array UInt8) : List Char → Array UInt8
+  | a :: b :: rest => hexInto (acc.push (UInt8.ofNat (hexNib a * 16 + hexNib b))) rest
+  | _ => acc
+
+def pushN (acc : Array UInt8) (n : Nat) (f : Nat → UInt8) : Array UInt8 := Id.run do
+  let mut a := acc
+  for i in [0:n] do
+    a := a.push (f i)
+  return a
+
+def partInto (acc : Array UInt8) (p : String) : Array UInt8 :=
+  match p.toList with
+  | 'z' :: rest => pushN acc (String.ofList rest).toNat! (fun _ => 0)
+  | 'h' :: rest => hexInto acc rest
+  | 'b' :: rest =>
+    match (String.ofList rest).splitOn "x" with
+    | [hh, n] => let v := (hexInto #[] hh.toList).getD 0 0; pushN acc n.toNat! (fun _ => v)
+    | _ => acc
+  | 'p' :: rest =>
+    match (String.ofList rest).splitOn "x" with
+    | [s, n] => let seed := s.toNat!; pushN acc n.toNat! (fun i => UInt8.ofNat ((seed + 7 * i + i / 256) % 256))
+    | _ => acc
+  | _ => acc
+
+def image (s : String) : Bytes :=
+  if s == "" then [] else ((s.splitOn ";").foldl partInto (Array.mkEmpty 4096)).toList
+
+/-- the repository function of a panic site `pkg.Func#ordinal:kind` / `pkg.Func:kind` -/
+def panicFn (site : String) : String :=
+  String.ofList (site.toList.takeWhile fun ch => ch != '#' && ch != ':')
+
+def specSections (secs : List SevMetadataSection) : List Spec.SnpLaunch.Section :=
+  secs.map fun s => ⟨s.address, s.length, s.kind⟩
+
+/-- the spec digest for what the model parsed from the image -/
+def specDigest (o : Opts) (fw : Bytes) : String :=
+  match SevMeta.extractFromFirmware true true fw with
+  | .ok (some rb, some secs) =>
+    hexEncode (Spec.SnpLaunch.snpSpec H fw (specSections secs) rb.addr o.vcpus.toNat (cfg.width o.product))
+  | _ => "unparsed"
+
+def ld (o : Opts) (fw : Bytes) : String :=
+  match launchDigest H cfg o fw with
+  | .ok d => "ok " ++ hexEncode d ++ " " ++ specDigest o fw
+  | .err c => "reject=" ++ c
+  | .panic s => "panic=" ++ panicFn s
+
+def snp (f : Fields) (fw : Bytes) : String :=
+  match unsignedSnp H cfg Gen.SevLayout.VmsaCounts (f.bool "family") (f.bool "image") (f.nat "vmsas") (f.nat "product") fw with
+  | .ok ds => "ok " ++ ",".intercalate (ds.map fun p => toString p.1 ++ ":" ++ hexEncode p.2)
+  | .err c => "reject=" ++ c
+  | .panic s => "panic=" ++ panicFn s
+
+def vmsa (f : Fields) : String :=
+  let bsp := Vmsa.ofList cfg.template
+  let (rip, csBase) := SevMeta.ripAndCsBase ⟨f.nat "addr", 0, []⟩
+  let v := if f.bool "ap" then (bsp.set "Cs.Base" csBase).set "Rip" rip else bsp
+  let specState := if f.bool "ap" then Spec.SnpLaunch.apState (f.nat "addr") else Spec.SnpLaunch.bspState
+  match putVmsa cfg.layout cfg.sizeofVmsa v (zeros 4096) with
+  | .ok b => "ok " ++ hexEncode (H b) ++ " " ++ hexEncode (H (Spec.SnpLaunch.vmsaBytes specState))
+  | .err c => "reject=" ++ c
+  | .panic s => "panic=" ++ panicFn s
+
+def handle (f : Fields) : String :=
+  match f.get "op" with
+  | "ld" => ld ⟨f.int "vcpus", f.nat "product"⟩ (image (f.get "fw"))
+  | "snp" => snp f (image (f.get "fw"))
+  | "vmsa" => vmsa f
+  | _ => "bad-op"
 
 end GceTcb.Drive.C04
